@@ -84,10 +84,14 @@ def shapes_for(seed_bytes, sizes):
         if len(pts) >= 3:
             out.append((name, pts))
     series('repeat', lambda n: seed_bytes * max(1, n // L))
-    for label, junk in () if L > 600 else (('pad-a', b'a'), ('pad-nul', b'\x00'), ('pad-ff', b'\xff'), ('pad-space', b' '), ('pad-semicolon', b';'),
+    big_seed_pads = ('pad-crlf', 'pad-header-line', 'pad-lf-line', 'pad-semicolon', 'pad-comma', 'pad-space', 'pad-nul')
+    for label, junk in (('pad-a', b'a'), ('pad-nul', b'\x00'), ('pad-ff', b'\xff'), ('pad-space', b' '), ('pad-semicolon', b';'),
                         ('pad-comma', b','), ('pad-crlf', b'\r\n'), ('pad-eq', b'='), ('pad-quote', b'"'), ('pad-a-colon', b'a:'),
                         ('pad-slash', b'a/'), ('pad-name-eq', b'a=b;'), ('pad-spf-term', b' a:x'), ('pad-word', b' mx'), ('pad-directive', b'; a=b'),
-                        ('pad-list-item', b', a'), ('pad-header-line', b'\r\nX: y'), ('pad-quoted', b'"a" ')):
+                        ('pad-list-item', b', a'), ('pad-header-line', b'\r\nX: y'), ('pad-quoted', b'"a" '), ('pad-lf-line', b'X: y\n'),
+                        ('pad-lf', b'\n'), ('pad-cr', b'\r')):
+        if L > 600 and label not in big_seed_pads:
+            continue            # long seeds: the structural fillers only (every measurement costs up to the work budget)
         series(label + '-after', lambda n, j=junk: seed_bytes + j * (n // len(j)))
         series(label + '-before', lambda n, j=junk: j * (n // len(j)) + seed_bytes)
         if L > 4:
